@@ -7,7 +7,7 @@ import markupgen
 import recorr
 
 PID = 'C03'
-PROOF_MODULES = ['ChamProofs.Props.C03']
+PROOF_MODULES = ['ChamProofs.Props.C03', 'ChamProofs.Props.C03Static']
 THEOREMS = [
     'ChamVerif.xml_spe_ok',
     'ChamVerif.tokens_concat_of_ok',
@@ -16,23 +16,34 @@ THEOREMS = [
     'ChamVerif.C03_tokens_contiguous',
     'ChamVerif.C03_tokens_anchored',
     'ChamVerif.C03_dissect',
+    'ChamVerif.parseToken_raw',
+    'ChamVerif.parseTokens_raw',
+    'ChamVerif.staticItems_clean',
+    'ChamVerif.C03_static_identity',
+    "ChamVerif.C03_static_identity'",
+    'ChamVerif.C03_static_hyp_example',
 ]
 LEVEL_TEXT = ('Proved in Lean for every input string: the token stream of the tokenizer regex extracted from the live source '
               'concatenates back to the input, with contiguous, anchored positions (C03_tokens_concat/_contiguous/_anchored, via a '
               'decidable shape check of the regenerated regex and a general covering theorem for backtracking regexes); proved for every tag: '
-              'a dissection passing the decidable dissectOK check reassembles to the tag (C03_dissect). The statement-free rendering path '
-              '(parser queue algorithm, emitters, newline normalisation) is an executable model tied to the code by differential '
-              'correspondence on grammar-generated and tag-soup documents, and judged by the identity oracle on the implementation.')
-LEVEL_NOTE = ('Trusted: Lean kernel; extract.py; CPython re modelled by Re.lean (differential-tested every run); the static-identity '
-              'statement itself is validated by correspondence/oracle, not proved; tag soup outside dissectOK is known finding D-03b.')
+              'a dissection passing the decidable dissectOK check reassembles to the tag (C03_dissect). Static identity, proved on the model '
+              'for every document: the element parser keeps every token (parseTokens_raw: invariant of the queue/index algorithm over any '
+              'token list, end-tag folding included), the emitters re-assemble every clean item to its source (staticItems_clean, mutual '
+              'induction over the element tree), hence a document whose tokens pass the decidable per-token check and that asks for no '
+              'evaluation renders to its newline-normalised source (C03_static_identity; non-vacuous: C03_static_hyp_example, decided by '
+              'the kernel with the regenerated regexes). The share of generated documents inside the theorem\'s hypotheses is reported '
+              '(static_hyp_docs); the model of parser and emitters is tied to the code by differential correspondence on '
+              'grammar-generated and tag-soup documents, and the identity is judged on the implementation by the oracle.')
+LEVEL_NOTE = ('Trusted: Lean kernel; extract.py; CPython re modelled by Re.lean (differential-tested every run); the static path of the '
+              'model (parser, emitters) as a model of the generated module; tag soup outside dissectOK is known finding D-03b.')
 RULE = ('tokenizer: every string over a 12-symbol markup alphabet up to the length bound (exhaustive) plus random longer '
         'strings; non-trivial iff the string contains "<". identity: documents from the markup grammar (well-formed and '
         'tag soup, randomised lexical detail); non-trivial iff the document has >= 1 tag with >= 1 attribute. '
         'distinct_nontrivial counts distinct such strings/documents.')
 TRUSTED = ['CPython re engine is modelled by ChamVerif/Re.lean (differential-tested this run on the tokenizer, tag and attribute regexes, all group spans)',
            'ast.unparse/compile/exec of the generated module (static path) — exercised by the end-to-end identity oracle, not proved',
-           'C03_static_identity (model-level statement "render = normalize" for documents whose tags all satisfy dissectOK) is '
-           'checked by correspondence + oracle only; proved are the tokenizer theorems for every string and C03_dissect for every tag']
+           'C03_static_identity is a theorem about the static path of the model; that the implementation follows that model is '
+           'checked by correspondence + oracle']
 ASSUMPTIONS = ['no lone surrogates in template sources (cannot be a Lean Char; generators never produce them)',
                'documents on which the tokenizer regex needs exponential time (unclosed long declarations) are skipped by both sides (counted as timeouts)']
 
@@ -176,6 +187,14 @@ def oracle(ctx):
         if not ctx.model_ok:
             info = {'dissect_ok': True}       # no model: every deviation is judged a violation
         kind = ('rejected' if 'out' not in r else 'inside-domain' if info.get('dissect_ok') else 'soup-outside-domain')
+        if info.get('static_hyp'):
+            # inside the hypotheses of C03_static_identity: the model must render the source (theorem instance), and so must the code
+            ctx.count('static_hyp_docs')
+            exp0 = normalize_newlines(d) if not d.startswith('<?xml') else d
+            if (m.get('ok') or {}).get('out') != exp0:
+                ctx.disagree('C03_static_identity instance: the model does not render a document inside the hypotheses to itself', d, model=m.get('ok'), impl=r)
+            if r.get('out') != exp0:
+                ctx.violation('a statement-free document inside the hypotheses of the static-identity theorem does not render to itself', d, expected=exp0, actual=r)
         hist[kind] = hist.get(kind, 0) + 1
         if markupgen.has_tag_with_attr(d) and 'out' in r:
             seen.add(d)
